@@ -318,6 +318,28 @@ pub fn parse_currency_non_commodity(input: &str) -> Result<String, ParseError> {
 
 /// Parse amount with optional decimal places
 pub fn parse_amount(input: &str) -> Result<f64, ParseError> {
+    // A SWIFT amount is written with digits and at most one decimal separator: the float
+    // parser below would also take a sign, an exponent, "inf" and "NaN"
+    let mut digits = 0usize;
+    let mut separators = 0usize;
+    for c in input.chars() {
+        if c.is_ascii_digit() {
+            digits += 1;
+        } else if c == ',' || c == '.' {
+            separators += 1;
+        } else {
+            return Err(ParseError::InvalidFormat {
+                message: format!("Invalid amount format: unexpected character '{}'", c),
+            });
+        }
+    }
+    if digits == 0 || separators > 1 {
+        return Err(ParseError::InvalidFormat {
+            message: "Invalid amount format: expected digits with one decimal separator"
+                .to_string(),
+        });
+    }
+
     // Remove any commas (European decimal separator handling)
     let normalized = input.replace(',', ".");
 
